@@ -85,6 +85,18 @@ Section Verify.
     | Some valid => negb (ntm_too_few valid (length vals))
     end.
 
+  (* A sequence of calls on ONE decoded part object / ONE decoded proof object,
+     each with its own decision.  The code keeps no state in the object between
+     calls (VerifyPart and Verify only read it), so the k-th verdict is what a
+     first call with that decision would give: the session is a map. *)
+  Definition part_session (vals : list (option addrT)) (idx : Z) (s : option sigT)
+             (ds : list decision) : list (option nat) :=
+    map (fun d => verify_part d vals idx s) ds.
+
+  Definition verify_session (vals : list (option addrT)) (sigs : list (option sigT))
+             (ds : list decision) : list bool :=
+    map (fun d => verify d vals sigs) ds.
+
   (* proofContextMap.Verify(srcUID, height, round, digest, proofs):
      digests = (network type id, network type section hash) in digest order;
      ctxs = the map ntid -> proof context; proofs = the NTSD proofs in order,
@@ -164,6 +176,8 @@ Definition bt_vals (vals : list (option nat)) : list (option baddr) := map (opti
 
 Definition bt_verify_part d vals idx s := verify_part baddr_eqb bt_recover d (bt_vals vals) idx s.
 Definition bt_verify d vals sigs := verify baddr_eqb bt_recover d (bt_vals vals) sigs.
+Definition bt_part_session vals idx s ds := part_session baddr_eqb bt_recover (bt_vals vals) idx s ds.
+Definition bt_verify_session vals sigs ds := verify_session baddr_eqb bt_recover (bt_vals vals) sigs ds.
 Definition bt_pcm_verify src height round (ctxs : list (Z * list (option nat))) digests proofs :=
   pcm_verify baddr_eqb bt_recover src height round
              (map (fun kv => (fst kv, bt_vals (snd kv))) ctxs) digests proofs.
